@@ -556,14 +556,14 @@ func (dsc *dataStoreCommand) bitfieldWrite(keyName string, ops []*bitfieldOp) (o
 	// find the byte array minimum length
 	length := 0
 	for _, op := range ops {
-		if op.op == BF_GET {
-			continue
-		}
-		// offsets come from the client; redis limits a string to 512MB (2^32 bits)
+		// offsets come from the client; redis limits a string to 512MB (2^32 bits); reads are checked as well
 		n := op.endOffset
 		if op.bitOffset < 0 || n < op.bitOffset || int64(n) >= int64(maxStringLength)*8 {
 			output.data = respErrorString("ERR bit offset is not an integer or out of range")
 			return
+		}
+		if op.op == BF_GET {
+			continue
 		}
 		if n > length {
 			length = n
